@@ -116,6 +116,11 @@ theorem facts_revoke (c : Chan) (n : Nat) : Facts c.next c.closed (revoke c n) :
             intro k hk
             exact absurd (release_secret_ok hk) hnok
 
+theorem facts_revokeP (c : Chan) (n : Nat) (po : Bool) : Facts c.next c.closed (revokeP c n po) := by
+  rcases revokeP_cases c n po with e | e <;> rw [e]
+  · exact facts_revoke c n
+  · exact facts_fail c _
+
 theorem facts_activate (c : Chan) : Facts c.next c.closed (activate c) := by
   unfold activate
   split
@@ -206,7 +211,7 @@ theorem chanStep_facts (F : Nat → Bytes → Bytes) (c : Chan) (hs : StubFresh 
   | getSecret n => exact facts_getSecret c n
   | getSecretOrNone n => exact facts_getSecretOrNone c n
   | validate n info sv pk => exact facts_needReady c (validate · n info sv pk) (facts_validate c n info sv pk)
-  | revoke n => exact facts_needReady c (revoke · n) (facts_revoke c n)
+  | revoke n po => exact facts_needReady c (revokeP · n po) (facts_revokeP c n po)
   | activate => exact facts_needReady c activate (facts_activate c)
   | signHolder n => exact facts_needReady c (signHolder · n) (facts_signHolder c n)
   | signRecovery => exact facts_needReady c signRecovery (facts_signRecovery c)
@@ -240,14 +245,14 @@ theorem chanStep_facts (F : Nat → Bytes → Bytes) (c : Chan) (hs : StubFresh 
         · have := facts_activate (validate c n info sv pk).c
           rwa [f.1, f.2.1] at this
     · exact facts_validate c n info sv pk
-  | hRevoke ver n =>
+  | hRevoke ver n po =>
     simp only [chanStep]
     split
     · exact facts_fail c _
     · apply facts_needReady
       split
       · exact facts_fail c _
-      · have h2 := facts_revoke c (n + 1)
+      · have h2 := facts_revokeP c (n + 1) po
         split
         · rename_i hcond
           refine ⟨h2.1, h2.2, by simp, by simp, h2.5, ?_⟩
@@ -287,6 +292,11 @@ theorem frame_revoke (c : Chan) (n : Nat) : Frame c (revoke c n) := by
   dsimp only
   repeat' split
   all_goals constructor <;> simp
+
+theorem frame_revokeP (c : Chan) (n : Nat) (po : Bool) : Frame c (revokeP c n po) := by
+  rcases revokeP_cases c n po with e | e <;> rw [e]
+  · exact frame_revoke c n
+  · exact frame_fail c _
 
 theorem frame_activate (c : Chan) : Frame c (activate c) := by
   unfold activate fail
@@ -349,7 +359,7 @@ theorem chanStep_frame (F : Nat → Bytes → Bytes) (c : Chan) (op : Op) :
     | getSecret n => exact ⟨rfl, fun _ => ⟨rfl, rfl⟩⟩
     | getSecretOrNone n => exact ⟨rfl, fun _ => ⟨rfl, rfl⟩⟩
     | validate n info sv pk => exact frame_needReady c (validate · n info sv pk) (frame_validate c n info sv pk)
-    | revoke n => exact frame_needReady c (revoke · n) (frame_revoke c n)
+    | revoke n po => exact frame_needReady c (revokeP · n po) (frame_revokeP c n po)
     | activate => exact frame_needReady c activate (frame_activate c)
     | signHolder n => exact frame_needReady c (signHolder · n) (frame_signHolder c n)
     | signRecovery => exact frame_needReady c signRecovery (frame_signRecovery c)
@@ -372,14 +382,14 @@ theorem chanStep_frame (F : Nat → Bytes → Bytes) (c : Chan) (op : Op) :
             · exact frame_fail _ _
           · exact frame_activate _
       · exact frame_validate c n info sv pk
-    | hRevoke ver n =>
+    | hRevoke ver n po =>
       simp only [chanStep]
       split
       · exact frame_fail c _
       · apply frame_needReady
         split
         · exact frame_fail c _
-        · have h2 := frame_revoke c (n + 1)
+        · have h2 := frame_revokeP c (n + 1) po
           split
           · exact ⟨h2.1, h2.2⟩
           · exact h2
